@@ -146,6 +146,19 @@ class World(object):
                     c = self._serialise(t, True)
                     d = self._serialise(t, True)
 
+                    try:
+                        fresh = trees.rebuild(trees.snapshot(t)).to_bytes()
+                    except Exception:
+                        fresh = None
+
+                    if fresh is not None and fresh != a:
+                        problems.append((
+                            'serialisation-depends-on-history',
+                            'a fresh tree with the same options and '
+                            'contents serialises differently: %r vs %r'
+                            % (_first_diff(a, fresh)))
+                        )
+
                     if a != b:
                         problems.append(('serialising-twice-differs',
                                          'to_bytes() gave different bytes '
@@ -341,6 +354,12 @@ class World(object):
 def _short(v):
     s = repr(v)
     return s if len(s) < 100 else s[:100] + '...'
+
+
+def _first_diff(a, b):
+    i = next((k for k in range(min(len(a), len(b))) if a[k] != b[k]),
+             min(len(a), len(b)))
+    return a[max(0, i - 30):i + 40], b[max(0, i - 30):i + 40]
 
 
 # ---------------------------------------------------------------------------
